@@ -203,7 +203,7 @@ fn read_line_(b: &[u8], o: &slippi::de::Opts, hash: bool) -> (String, Option<Gam
     let res = std::panic::catch_unwind(|| slippi::read(Cursor::new(b), Some(o)));
     match res { Err(_) => ("panic".to_string(), None), Ok(Err(e)) => (format!("err {}", e), None), Ok(Ok(g)) => {
         match std::panic::catch_unwind(std::panic::AssertUnwindSafe(|| dump::summary(&g))) {
-            Ok(mut s) => { if hash { s = s.replace("hashed=none", &format!("hashed=(some {})", b.len())); } (s, Some(g)) }
+            Ok(mut s) => { (s, Some(g)) }
             Err(_) => ("panic-in-dump".to_string(), Some(g)) } } }
 }
 
@@ -215,7 +215,7 @@ pub fn read_line_at(b: &[u8], skip: bool, hash: bool, pre: usize, post: usize) -
     let res = std::panic::catch_unwind(|| { let mut c = Cursor::new(&buf[..]); c.set_position(pre as u64); let r = slippi::read(&mut c, Some(&o)); (r, c.position()) });
     match res { Err(_) => "panic".to_string(), Ok((Err(e), _)) => format!("err {}", e), Ok((Ok(g), pos)) => {
         match std::panic::catch_unwind(std::panic::AssertUnwindSafe(|| dump::summary(&g))) {
-            Ok(mut s) => { if hash { s = s.replace("hashed=none", &format!("hashed=(some {})", b.len())); } if pos as usize != pre + b.len() { s.push_str(&format!(" endpos={}!={}", pos, pre + b.len())); }
+            Ok(mut s) => { if pos as usize != pre + b.len() { s.push_str(&format!(" endpos={}!={}", pos, pre + b.len())); }
                 // the hash covers the bytes consumed, not what lies before the replay in the source
                 let want = if hash { Some(format!("xxh3:{:016x}", xxhash_rust::xxh3::xxh3_64(b))) } else { None };
                 if g.hash != want { s.push_str(&format!(" hash={:?}!={:?}", g.hash, want)); }
@@ -230,6 +230,14 @@ pub fn write_slp(g: &Game) -> Result<Vec<u8>, String> {
 fn read(rng: &mut Rng, ctx: &mut Ctx) {
     let go = GenOpts { max_frames: if ctx.thorough { 40 } else { 9 }, newer: false, force: None };
     for k in 0..ctx.n {
+        // the model's XXH3-64 against the crate's on byte strings of every length class (0, 1-3, 4-8, 9-16, 17-128, 129-240, long: stripe and
+        // block boundaries), one-shot and through the streaming hasher fed in pieces
+        { const LENS: [usize; 40] = [0, 1, 2, 3, 4, 5, 7, 8, 9, 15, 16, 17, 31, 32, 33, 64, 65, 96, 97, 128, 129, 143, 144, 160, 239, 240, 241, 255, 256, 304, 305, 1023, 1024, 1025, 1088, 1089, 2048, 2049, 3073, 4160];
+            let len = LENS[k % 40] + if k >= 40 { (rng.next() % 700) as usize } else { 0 }; let data = rng.bytes(len);
+            let one = xxhash_rust::xxh3::xxh3_64(&data); let mut st = xxhash_rust::xxh3::Xxh3::new(); let step = 1 + (rng.next() % 300) as usize; for ch in data.chunks(step) { st.update(ch); }
+            let mut c = Case::new(format!("xxh3 {}", hex(&data)), format!("ok xxh3:{:016x}", one)); c.tags = vec![format!("xxh3-len:{}", match len { 0 => "0", 1..=3 => "1-3", 4..=8 => "4-8", 9..=16 => "9-16", 17..=128 => "17-128", 129..=240 => "129-240", _ => "long" })];
+            if st.digest() != one { c.fail("C11", format!("streaming XXH3 of {} bytes fed in pieces of {} differs from the one-shot value", len, step)); }
+            ctx.push(c); }
         let (r, tags) = gen_replay(rng, k, &go);
         let b = encode(&r);
         let hash = k % 3 == 0;
@@ -299,10 +307,10 @@ fn read(rng: &mut Rng, ctx: &mut Ctx) {
                 match res { Err(_) => { c.impl_out = "panic".into(); c.fail("C06", "panic reading two replays back to back".to_string()); }
                     Ok((g1, pos1, g2, pos2)) => { c.impl_out = format!("pos {} {}", pos1, pos2);
                         match g1 { Err(e) => { if s1.starts_with("ok") { c.fail("C01", format!("first of two back-to-back replays rejected: {}", e)); } }
-                            Ok((sum1, _, h1)) => { if sum1 != s1 { c.fail("C01", "first of two back-to-back replays reads differently than alone".to_string()); }
+                            Ok((sum1, _, h1)) => { if dump::strip_hash(&sum1) != s1 { c.fail("C01", "first of two back-to-back replays reads differently than alone".to_string()); }
                                 if hsh && h1.as_deref() != Some(format!("xxh3:{:016x}", xxhash_rust::xxh3::xxh3_64(&b)).as_str()) { c.fail("C11", format!("hash of the first of two back-to-back replays is {:?}", h1)); }
                                 if pos1 != b.len() { let m = format!("after reading a replay of {} bytes (skip={}, hash={}) the reader stands at {}", b.len(), skip, hsh, pos1); c.fail("C01", m.clone()); c.fail("C16", m.clone()); c.fail("C12", m.clone()); if skip { c.fail("C10", m.clone()); } if hsh { c.fail("C11", m); } }
-                                match g2 { Some(Ok((sum2, md2, h2))) => { if sum2 != s2 { c.fail("C01", "second of two back-to-back replays reads differently than alone".to_string()); }
+                                match g2 { Some(Ok((sum2, md2, h2))) => { if dump::strip_hash(&sum2) != s2 { c.fail("C01", "second of two back-to-back replays reads differently than alone".to_string()); }
                                         if g2alone.as_ref().map(|g| &g.metadata) != Some(&md2) { c.fail("C16", "metadata of the second of two back-to-back replays differs".to_string()); }
                                         if hsh && h2.as_deref() != Some(format!("xxh3:{:016x}", xxhash_rust::xxh3::xxh3_64(&b2)).as_str()) { c.fail("C11", format!("hash of the second of two back-to-back replays is {:?}", h2)); } }
                                     Some(Err(e)) => { if s2.starts_with("ok") { let m = format!("second of two back-to-back replays rejected: {}", e); c.fail("C01", m.clone()); c.fail("C16", m); } } None => {} } } } } }
@@ -313,7 +321,7 @@ fn read(rng: &mut Rng, ctx: &mut Ctx) {
             for (skip, hsh) in [(false, k % 20 == 4), (true, false)] { if skip && r.end.is_none() { continue; }
                 let o = slippi::de::Opts { skip_frames: skip, compute_hash: hsh, debug: Some(slippi::de::Debug { dir: dir.clone() }) };
                 let res = std::panic::catch_unwind(|| slippi::read(Cursor::new(&b), Some(&o)));
-                let dl = match res { Err(_) => "panic".to_string(), Ok(Err(e)) => format!("err {}", e), Ok(Ok(g)) => { let mut s = dump::summary(&g); if hsh { s = s.replace("hashed=none", &format!("hashed=(some {})", b.len())); } s } };
+                let dl = match res { Err(_) => "panic".to_string(), Ok(Err(e)) => format!("err {}", e), Ok(Ok(g)) => { let mut s = dump::summary(&g); s } };
                 let (plain, _) = read_line(&b, skip, hsh);
                 let mut c = Case::new(read_cmd(skip, hsh, &b), dl.clone()); c.tags = vec![format!("debug-opt skip{}", skip as u8)];
                 if dl != plain { let m = format!("read with the debug option (skip={}, hash={}) differs from the read without it: {} vs {}", skip, hsh, &dl[..dl.len().min(100)], &plain[..plain.len().min(100)]); for p in ["C01", "C04", "C06", "C12"] { c.fail(p, m.clone()); } if skip { c.fail("C10", m.clone()); } if hsh { c.fail("C11", m); } }
